@@ -127,6 +127,7 @@ func C17(p *core.Program, r *core.Report) {
 	checkInvalidRejected(p, r)
 	checkTextNumberWidth(p, r)
 	checkEndpointDecoderValidates(p, r)
+	checkEndpointRegexps(p, r)
 	checkBundleIDLen(p, r)
 }
 
